@@ -65,7 +65,7 @@ def run(tier, replay):
     pub = {n.split("+")[0]: n for n in catalogue.lis_background()}
     jobs = []
     n = 0
-    for base, chain in S.bkg_names().items():
+    for base, chain in S.bkg_names(port_only=True).items():
         k0 = chain[0][0]
         wit = S.witness_paths(k0)
         if not thorough:
